@@ -10,8 +10,10 @@ import (
 	"fmt"
 	"os"
 	"reflect"
+	"strconv"
 	"strings"
 
+	lucene "github.com/grindlemire/go-lucene"
 	"github.com/grindlemire/go-lucene/pkg/driver"
 	"github.com/grindlemire/go-lucene/pkg/lucene/expr"
 )
@@ -37,7 +39,8 @@ func leafProfiles(in any, out *[]map[string]any) {
 		}
 		switch e.Op {
 		case expr.Literal, expr.Wild, expr.Regexp:
-			p := map[string]any{"op": opNames[e.Op], "ty": "other", "has_wild": false, "slashed": false, "intvalued": false, "empty": false}
+			p := map[string]any{"op": opNames[e.Op], "ty": "other", "has_wild": false, "slashed": false, "intvalued": false, "empty": false,
+				"f64ty": "", "f64v": ""}
 			switch v := e.Left.(type) {
 			case string:
 				p["ty"] = "str"
@@ -48,9 +51,11 @@ func leafProfiles(in any, out *[]map[string]any) {
 				p["ty"] = "col"
 			case int:
 				p["ty"] = "int"
+				p["f64ty"], p["f64v"] = viaFloat64(float64(v))
 			case float64:
 				p["ty"] = "float"
 				p["intvalued"] = v == float64(int(v))
+				p["f64ty"], p["f64v"] = viaFloat64(v)
 			}
 			*out = append(*out, p)
 			return
@@ -69,6 +74,15 @@ func leafProfiles(in any, out *[]map[string]any) {
 	}
 }
 
+// viaFloat64: what a number is once it has been a float64 (encoding/json decodes numbers in untyped positions - the
+// bounds of a range - as float64): an int when the float64 has an integer value, else that float64.
+func viaFloat64(f float64) (string, string) {
+	if f == float64(int(f)) {
+		return "int", strconv.Itoa(int(f))
+	}
+	return "float", fmtFloat(f)
+}
+
 func renderAll(e *expr.Expression) (s, sp string, ps []any, o1, o2 string) {
 	d := driver.NewPostgresDriver()
 	o1 = outcomeOf(func() error { var err error; s, err = d.Render(e); return err })
@@ -79,7 +93,7 @@ func renderAll(e *expr.Expression) (s, sp string, ps []any, o1, o2 string) {
 // roundTrip records everything C12 states about one parsed expression.
 func roundTrip(e *expr.Expression) map[string]any {
 	rt := map[string]any{"enc": "skip", "dec": "skip", "validate2": false, "reenc_same": false, "str_same": false, "gostr_same": false,
-		"sql_same": false, "sqlp_same": false, "deep_equal": false, "tree2": Tree{"op": "NIL"}, "leaves": []map[string]any{}, "json": ""}
+		"sql_same": false, "sqlp_same": false, "deep_equal": false, "reuse_same": false, "tree2": Tree{"op": "NIL"}, "leaves": []map[string]any{}, "json": ""}
 	var b1 []byte
 	rt["enc"] = outcomeOf(func() error { var err error; b1, err = json.Marshal(e); return err })
 	leaves := []map[string]any{}
@@ -102,6 +116,21 @@ func roundTrip(e *expr.Expression) map[string]any {
 		rt["reenc_same"] = bytes.Equal(b1, b2)
 	}
 	rt["tree2"] = dumpTree(&e2)
+	// the same bytes decoded into expression values that were used before (a reused variable, an element of a reused slice)
+	rt["reuse_same"] = func() (same bool) {
+		defer func() {
+			if recover() != nil {
+				same = false
+			}
+		}()
+		for _, prev := range usedTargets() {
+			d := prev
+			if err := json.Unmarshal(b1, &d); err != nil || !reflect.DeepEqual(&d, &e2) {
+				return false
+			}
+		}
+		return true
+	}()
 	func() {
 		defer func() { recover() }()
 		rt["str_same"] = e.String() == e2.String()
@@ -115,6 +144,31 @@ func roundTrip(e *expr.Expression) map[string]any {
 		rt["sqlp_same"] = a2 == c2 && sp1 == sp2 && fmt.Sprint(ps1...) == fmt.Sprint(ps2...) && len(ps1) == len(ps2)
 	}()
 	return rt
+}
+
+// usedTargets: expression values holding the results of earlier decodes (a binary node with a range on its right, a
+// fuzzy and a boost node with non-default arguments); decoded afresh for every use so that no state is shared.
+var usedDocs [][]byte
+
+func usedTargets() []expr.Expression {
+	if usedDocs == nil {
+		usedDocs = [][]byte{}
+		for _, q := range []string{"a:b AND c:[1 TO 5]", "x~3", "x^4", "f:(p OR q)"} {
+			if e, err := lucene.Parse(q); err == nil {
+				if b, err := json.Marshal(e); err == nil {
+					usedDocs = append(usedDocs, b)
+				}
+			}
+		}
+	}
+	out := []expr.Expression{}
+	for _, b := range usedDocs {
+		var d expr.Expression
+		if json.Unmarshal(b, &d) == nil {
+			out = append(out, d)
+		}
+	}
+	return out
 }
 
 // decodeDoc records what C13 states about one byte string.
